@@ -102,6 +102,8 @@ type pkgResult struct {
 	Diags []runner.Diagnostic
 }
 
+var runMu sync.Mutex
+
 // lint runs all analyzers over patterns below cfg.Dir and returns the
 // initial packages that were analysed without errors, sorted by ID, plus the
 // IDs of the packages that failed (type errors etc.: not under obligation).
@@ -112,15 +114,14 @@ func (l *linter) lint(cfg *packages.Config, patterns []string, maxProcs int) (ou
 			err = fmt.Errorf("runner panicked: %v", e)
 		}
 	}()
-	// runner.New sizes its semaphore from GOMAXPROCS; the machine is shared.
-	l.mu.Lock()
-	old := runtime.GOMAXPROCS(0)
-	if maxProcs > 0 && maxProcs < old {
-		runtime.GOMAXPROCS(maxProcs)
-	}
+	// One Run at a time in this process: the runner and the loader are built for one run per
+	// process (go/loader keeps an unsynchronised package-level build-id cache; two concurrent
+	// Runs die with "concurrent map read and map write" — seen on an idle 16-core machine,
+	// never on the loaded one). A run parallelises internally over all cores.
+	_ = maxProcs
+	runMu.Lock()
+	defer runMu.Unlock()
 	r, rerr := runner.New(config.Config{}, l.cache)
-	runtime.GOMAXPROCS(old)
-	l.mu.Unlock()
 	if rerr != nil {
 		return nil, nil, rerr
 	}
